@@ -177,9 +177,49 @@ def part_timer(facts, res, fields, fi):
         return
     header = list(loops)[0]
     names = {l["n"]: i for i, l in enumerate(body["locals"]) if l["n"]}
-    if "count" not in names:
-        res.errors.append("update_timer8_0: local 'count' not found")
-        return
+    # the tick counter, by role: a Range iterator advanced by next() in the loop (for _ in 0..ticks), or else the integer local
+    # that the loop decrements and tests (while count != 0)
+    range_style = any(bl_["term"]["k"] == "call" and "ops::Range<" in (bl_["term"]["callee"].get("full") or "") and (bl_["term"]["callee"]["path"] or "").endswith("::next")
+                      for bl_ in (body["blocks"][b_] for b_ in loops[header]))
+    # locals holding the Range that next() is applied to (through `&mut local`)
+    iter_locals = set()
+    if range_style:
+        g_ = cfgmod.Cfg(body)
+        for b_ in loops[header]:
+            t_ = body["blocks"][b_]["term"]
+            if t_["k"] == "call" and "ops::Range<" in (t_["callee"].get("full") or "") and (t_["callee"]["path"] or "").endswith("::next"):
+                a0 = t_["args"][0]
+                if a0["k"] in ("copy", "move") and not a0["p"]["p"]:
+                    todo_ = [(a0["p"]["l"], 4)]
+                    while todo_:
+                        l0_, dep_ = todo_.pop()
+                        for blk_, kd_, payload_ in g_.defs().get(l0_, []):
+                            if kd_ != "st":
+                                continue
+                            r0_ = payload_["r"]
+                            if r0_["k"] == "ref" and not r0_["p"]["p"]:
+                                iter_locals.add(r0_["p"]["l"])           # &mut iter
+                            elif r0_["k"] == "ref" and [pr_["k"] for pr_ in r0_["p"]["p"]] == ["deref"] and dep_ > 0:
+                                todo_.append((r0_["p"]["l"], dep_ - 1))  # a reborrow &mut *r
+                            elif r0_["k"] == "use" and r0_["o"]["k"] in ("copy", "move") and not r0_["o"]["p"]["p"] and dep_ > 0:
+                                todo_.append((r0_["o"]["p"]["l"], dep_ - 1))
+    counter_local = None
+    if not range_style:
+        cands = []
+        for b_ in loops[header]:
+            for s_ in body["blocks"][b_]["st"]:
+                if s_["k"] == "assign" and not s_["p"]["p"] and s_["r"]["k"] in ("bin", "checked") and s_["r"].get("op") in ("Sub", "SubWithOverflow"):
+                    src_ = s_["r"].get("a")
+                    if src_ and src_["k"] in ("copy", "move") and not src_["p"]["p"]:
+                        cands.append(src_["p"]["l"])
+        named = [l_ for l_ in cands if body["locals"][l_].get("n")]
+        if "count" in names:
+            counter_local = names["count"]
+        elif len(set(named)) == 1:
+            counter_local = named[0]
+        else:
+            res.errors.append("update_timer8_0: the tick counter of the loop was not identified (candidates %r)" % sorted(set(cands)))
+            return
     carried = set()
     for b_ in loops[header]:
         bl_ = body["blocks"][b_]
@@ -198,6 +238,23 @@ def part_timer(facts, res, fields, fi):
         for clear in range(len(cnames)):
             bm, ip = new_interp(facts)
             Mx = bv.M
+
+            def m_into_iter(ip_, st, fr, t, args):
+                return args[0]
+
+            def m_range_next(ip_, st, fr, t, args):
+                r_ = args[0]
+                rng_ = ip_.read_loc(st, r_.root, r_.path)
+                if not (isinstance(rng_, Agg) and len(rng_.fields) == 2 and all(isinstance(x_, Int) for x_ in rng_.fields)):
+                    return None
+                a_, b_ = rng_.fields
+                c_ = bv.ult(a_.bits, b_.bits)
+
+                def adv(s_, r_=r_, a_=a_):
+                    ip_.write_loc(s_, r_.root, r_.path + (0,), Int(bv.add(a_.bits, bv.const(1, len(a_.bits)))))
+                return [(c_, Enum(models.SOME, [a_]), adv), (Mx.NOT(c_), Enum(models.NONE, []))]
+            ip.models["<I as std::iter::IntoIterator>::into_iter"] = m_into_iter
+            ip.models["std::iter::range::<impl std::iter::Iterator for std::ops::Range<A>>::next"] = m_range_next
             mem = {}
             busref = bm.fresh(mem)
             resid = bv.seq_bv("t_state", 16)
@@ -207,13 +264,24 @@ def part_timer(facts, res, fields, fi):
             snap = {}
 
             def at_header(ip_, st, fr, n, snap=snap):
-                root = ("f", fr.fid, names["count"])
-                cur = st.mem.get(root)
                 t = st.mem[TIMER_ROOT]
+                if range_style:
+                    # the Range iterator of the activation: remaining ticks = end - start
+                    rr = [k_ for k_, v_ in st.mem.items() if k_[0] == "f" and k_[1] == fr.fid and isinstance(v_, Agg) and len(v_.fields) == 2
+                          and all(isinstance(x_, Int) for x_ in v_.fields) and isinstance(k_[2], int) and k_[2] in iter_locals]
+                    if len(rr) != 1:
+                        snap["error"] = "the Range iterator of the tick loop was not found (%d candidates)" % len(rr)
+                        return "stop"
+                    root = rr[0]
+                    rng_ = st.mem[root]
+                    cur = Int(bv.sub(rng_.fields[1].bits, rng_.fields[0].bits))
+                else:
+                    root = ("f", fr.fid, counter_local)
+                    cur = st.mem.get(root)
                 if n == 0:
                     snap["entry"] = (cur, t.fields[fi["state"]], st.pc, st.eff)
                     # generalise the remaining count; the tick analysed stands for every tick
-                    st.mem[root] = Int(bv.seq_bv("remaining", 16))
+                    st.mem[root] = Agg([Int(bv.const(0, 16)), Int(bv.seq_bv("remaining", 16))]) if range_style else Int(bv.seq_bv("remaining", 16))
                     # any other integer local assigned (or mutably borrowed) in the loop is loop-carried: arbitrary value
                     for l_ in sorted(carried):
                         key_ = ("f", fr.fid, l_)
@@ -224,7 +292,8 @@ def part_timer(facts, res, fields, fi):
                     return "continue"
                 st.add_eff(("count_after", cur.bits if isinstance(cur, Int) else None))
                 return "stop"
-            ip.block_hooks[(key, header)] = at_header
+            if div != 0:
+                ip.block_hooks[(key, header)] = at_header     # with no clock selected nothing may happen: analysed as it is
             a_io2 = SymArr("io_registrs2", bm.lens["io_registrs2"], 8)
             mem[("h", "ic")] = Opaque("ic")
             outs = ip.run_all(key, [Ref(TIMER_ROOT, ()), busref, Int(charge), Ref(("h", "ic"), ())], mem)
@@ -252,6 +321,9 @@ def part_timer(facts, res, fields, fi):
                     res.evaluations += 1
                 continue
             # (2) accumulation at the loop head
+            if snap.get("error"):
+                res.errors.append(snap["error"])
+                continue
             ent = snap.get("entry")
             if ent is None:
                 res.errors.append("tick loop head not reached for divisor %d" % div)
